@@ -29,6 +29,9 @@ ACTIONS = ["Spawn", "SpawnFail", "Return", "ReadStdin", "StageRead", "StageEmit"
            "StageKill", "Tick"]
 BOOL = [False, True]
 PARAMS = dict(T=0.2, TL=6, S=1.2, WD=2.8, OVER=0.9, GRACE=0.4)
+# round 2: cases whose first run broke the harness' timing assumption (a process needed longer than the timeout
+# just to start: loaded machine) are run again, few at a time, with longer times
+PARAMS2 = dict(T=1.0, TL=12, S=3.5, WD=8.0, OVER=2.6, GRACE=0.8)
 
 
 def fam(**kw):
@@ -80,6 +83,10 @@ FAMILIES["thorough"].update([
     ("tmo", fam(MaxN=3, MaxOdd=2, Rcs=["0", "1"], Slows=BOOL, Apis=["call", "pipe", "write", "connect"], Keeps=BOOL,
                 Tmos=["arg"], Sigs=["KILL", "TERM"])),
     ("notmo", fam(MaxN=3, Slows=BOOL, Apis=["call", "write", "connect"], Keeps=BOOL)),
+    # one stage that deviates in every respect at once, anywhere in 1..3 stages
+    ("mix", fam(MaxN=3, MaxOdd=1, Rd1=["no", "drain", "pass"], RdK=["no", "drain", "pass"], Outs=["p", "pb", "L"],
+                Rcs=["0", "1", "sig"], Slows=BOOL, Errs=BOOL, Apis=["call", "shell", "connect"], Keeps=BOOL,
+                Tmos=["none", "arg"])),
     ("tmoctx", fam(Slows=BOOL, Rcs=["0", "2"], Apis=["shell", "prov"], Keeps=BOOL, Tmos=["none", "arg", "ctx", "both"],
                    Sigs=["KILL", "TERM"], Envs=["none", "safe"], Flts=["none", "hit", "miss"], Forms=["list", "str"])),
     ("stdin", fam(MaxN=3, Rd1=["no", "drain", "pass"], RdK=["no", "drain", "pass"],
@@ -285,9 +292,11 @@ def cost(c):
     return t
 
 
-def execute(cases, tier):
-    base = lib.subdir("x03w")
+def execute(cases, tier, rnd=1):
+    base = lib.subdir("x03w%d" % rnd)
     jobs = 12 if lib.NCPU >= 16 else 8 if lib.NCPU >= 8 else 4      # the driver processes mostly sleep
+    if rnd > 1:
+        jobs = 4
     nproc = jobs * 2
     rng = random.Random(lib.seed())
     order = sorted(cases, key=lambda c: -cost(c))
@@ -301,7 +310,8 @@ def execute(cases, tier):
     for n, b in enumerate(bins):
         if b:
             rng.shuffle(b)
-            payloads.append(dict(base=os.path.join(base, "p%d" % n), seed=lib.seed() * 1000 + n, params=PARAMS, cases=b))
+            payloads.append(dict(base=os.path.join(base, "p%d" % n), seed=lib.seed() * 1000 + n, round=rnd,
+                                 params=PARAMS if rnd == 1 else PARAMS2, cases=b))
     outs = lib.run_driver_parallel("drive_commandexec.py", payloads, timeout=1700, jobs=jobs)
     traces, stats, tools = [], collections.Counter(), []
     for o in outs:
@@ -576,6 +586,21 @@ def run(prop, tier):
     print("timing: validation %.1fs (%d events, %d JVMs)" % (time.time() - t1, val["events"], val["jvms"]))
     nself = check_selftests(val, want)
     val["traces"] -= len(corrupted)
+    # round 2: the cases whose run broke the harness' own timing assumption, again with longer times
+    again = sorted(set(r["id"] for r in val["rejected"] if r["clause"].startswith("Assumption:")))
+    if again:
+        if len(again) > max(20, len(cases) // 10):
+            raise lib.MachineryError("the timing assumption of the harness failed on %d of %d cases: the machine is too "
+                                     "loaded for timeouts of %ss" % (len(again), len(cases), PARAMS["T"]))
+        t1 = time.time()
+        bycase = dict((c["id"], c) for c in cases)
+        traces2, stats2, tools2 = execute([bycase[i] for i in again], tier, rnd=2)
+        val2 = lib.validate_traces("CommandExecTrace", "CommandExecTrace.cfg", traces2, jobs=2)
+        keep = set(again)
+        traces = [t for t in traces if t["id"] not in keep] + traces2
+        val["rejected"] = [r for r in val["rejected"] if r["id"] not in keep] + val2["rejected"]
+        val["events"] += val2["events"]
+        print("timing: %d cases run again with longer times (%.1fs)" % (len(again), time.time() - t1))
     judge(prop, verdict, val, traces, cases)
     if lacking_self and not verdict.violations:
         raise lib.MachineryError("self-test: no recorded trace to corrupt for %s" % lacking_self)
@@ -611,7 +636,7 @@ def run(prop, tier):
                    model_action_coverage=dict((a, res["design"].coverage.get(a, 0)) for a in ACTIONS),
                    code_transcription_refuted_on=refuted, selftest_corrupted_traces_rejected=nself,
                    r4_tool_tables_compared=r4, tool_model=tool_model, cases_in_known_deviation_classes=dict(classes),
-                   processes_started=stats.get("procs", 0), params=PARAMS,
+                   processes_started=stats.get("procs", 0), params=PARAMS, cases_run_again_with_longer_times=len(again),
                    clauses=["ResultIsLastStageOutput", "RcPolicy", "TimeoutTerminates", "Terminates", "NeverReadsCallerStdin",
                             "NoShell", "EnvIsControlled", "StreamEqualsCall", "ExceptionCarriesOutput", "NoLeftovers",
                             "NotFoundIsAnError", "Connected", "WriteTarget"],
